@@ -98,10 +98,49 @@ func (c *Ctx) nniProposals(rr, nn *FuncInfo) {
 	info := rr.Pkg.TypesInfo
 	clause := "the NNI generator proposes exactly two rearrangements per inner branch"
 	var calls []*ast.CallExpr
+	// a proposal built through a wrapper (`nniAround(t, e, cross)` = `return newNNI(t, e.Left(), e.Right(), cross)`)
+	// is read as the newNNI call it stands for, its arguments expressed in the caller's terms
+	type viaWrapper struct{ a1, a2, cross func(o *canonOpts) string }
+	wrapped := map[*ast.CallExpr]*viaWrapper{}
+	var wrapE = map[*ast.CallExpr]types.Object{}
 	for _, call := range callsIn(rr.Decl.Body, true) {
-		if calleeOf(info, call) == nn.Obj {
+		fn := calleeOf(info, call)
+		if fn == nn.Obj {
 			calls = append(calls, call)
+			continue
 		}
+		wi := c.FuncOfObj(fn)
+		if fn == nil || wi == nil || wi.Decl.Body == nil || !inRepo(fn) || len(wi.Decl.Body.List) != 1 {
+			continue
+		}
+		ret, isRet := wi.Decl.Body.List[0].(*ast.ReturnStmt)
+		if !isRet || len(ret.Results) != 1 {
+			continue
+		}
+		inner, isCall := unparen(ret.Results[0]).(*ast.CallExpr)
+		if !isCall || calleeOf(wi.Pkg.TypesInfo, inner) != nn.Obj || len(inner.Args) != 4 {
+			continue
+		}
+		winfo := wi.Pkg.TypesInfo
+		call := call
+		mk := func(e ast.Expr) func(o *canonOpts) string {
+			return func(o *canonOpts) string {
+				sub := &canonOpts{subst: map[types.Object]string{}}
+				for k, a := range call.Args {
+					if p := paramObj(winfo, wi.Decl, k); p != nil {
+						sub.subst[p] = c.canon(info, a, o)
+					}
+				}
+				return c.canon(winfo, e, sub)
+			}
+		}
+		wrapped[call] = &viaWrapper{mk(inner.Args[1]), mk(inner.Args[2]), mk(inner.Args[3])}
+		for _, a := range call.Args {
+			if t := info.TypeOf(a); t != nil && strings.HasSuffix(t.String(), "tree.Edge") {
+				wrapE[call] = identObj(info, a)
+			}
+		}
+		calls = append(calls, call)
 	}
 	if len(calls) != 2 {
 		c.Violation("GF", "tree.NNIRearranger.Rearrange/two-variants", rr.Decl.Pos(), fmt.Sprintf("%d calls of newNNI per branch, expected exactly 2", len(calls))).Clause = clause
@@ -110,7 +149,9 @@ func (c *Ctx) nniProposals(rr, nn *FuncInfo) {
 	// the branch variable: root identifier of the nodes handed to newNNI; it must come from t.Edges()
 	// (range value, or element of a local holding t.Edges())
 	var eObj types.Object
-	if len(calls[0].Args) == 4 {
+	if w := wrapE[calls[0]]; w != nil {
+		eObj = w
+	} else if len(calls[0].Args) == 4 {
 		e := unparen(calls[0].Args[1])
 		for {
 			switch x := e.(type) {
@@ -173,22 +214,33 @@ func (c *Ctx) nniProposals(rr, nn *FuncInfo) {
 	vals := map[string]int{}
 	good := true
 	for _, call := range calls {
-		if len(call.Args) != 4 {
-			good = false
-			continue
-		}
-		if c.canon(info, call.Args[1], o) != "$E.left" || c.canon(info, call.Args[2], o) != "$E.right" {
-			good = false
-		}
-		if tv, ok := info.Types[call.Args[3]]; ok && tv.Value != nil && tv.Value.Kind() == constant.Bool {
-			vals[tv.Value.String()]++
+		if w := wrapped[call]; w != nil {
+			if w.a1(o) != "$E.left" || w.a2(o) != "$E.right" {
+				good = false
+			}
+			if cv := w.cross(o); cv == "true" || cv == "false" {
+				vals[cv]++
+			} else {
+				good = false
+			}
 		} else {
-			good = false
+			if len(call.Args) != 4 {
+				good = false
+				continue
+			}
+			if c.canon(info, call.Args[1], o) != "$E.left" || c.canon(info, call.Args[2], o) != "$E.right" {
+				good = false
+			}
+			if tv, ok := info.Types[call.Args[3]]; ok && tv.Value != nil && tv.Value.Kind() == constant.Bool {
+				vals[tv.Value.String()]++
+			} else {
+				good = false
+			}
 		}
 		conds, okc := c.pathConds(info, rr.Decl.Body, call, true)
 		var rel []cond
 		for _, cd := range conds {
-			if cd.Expr != nil && mentions(info, cd.Expr, eObj) && !strings.Contains(c.canon(info, cd.Expr, o), "newNNI") {
+			if cd.Expr != nil && mentions(info, cd.Expr, eObj) && !strings.Contains(c.canon(info, cd.Expr, o), "newNNI") && !containsCall(info, cd.Expr, func(cl *ast.CallExpr, _ *types.Func) bool { return wrapped[cl] != nil }) {
 				rel = append(rel, cd)
 			}
 		}
